@@ -115,9 +115,17 @@ class C12(XsProp):
                     if k < 0.7 or d > 1: return ('S', rng.choice([b'', b'', b'a', b'xy', b'\xc3\xa9']))
                     return ('V', [el(d + 1) for _ in range(rng.randint(0, 3))])
                 mv = [el() for _ in range(rng.randint(0, 5))]
+                # a tag (other than the formatting tag) on an element changes nothing
+                tagm = [(('S', b'k'), ('I', 1))]
+                tv = [('G', x, tagm) if rng.random() < 0.3 else x for x in mv]
                 sep = rng.choice(['', ',', '+-', ' '])
                 word = rng.choice(['join', 'join', 'concat'])
                 prog = ('v "%s" join' % sep) if word == 'join' else 'v concat'
+                if tv != mv:
+                    case = 'xs limits 20000 300 - | push %s | eval %s | eval %s | stack | var 76' % (cells.fmt(('V', tv)), hexsrc('var v'), hexsrc(prog))
+                    cs.append(case)
+                    self.meta[case] = ('vec', ('joinmix', mv, sep if word == 'join' else None, 'tagged'))
+                    continue
                 case = 'xs limits 20000 300 - | eval %s | eval %s | stack | var 76' % (hexsrc('%s var v' % cells.source(('V', mv))), hexsrc(prog))
                 cs.append(case)
                 self.meta[case] = ('vec', ('joinmix', mv, sep if word == 'join' else None))
@@ -252,9 +260,12 @@ class C12(XsProp):
                     fails.append(('case: %s\nhetero-keys: %s\nresult: %s' % (c, hetero, o[:1500]), bad))
             else:
                 exp = info
-                res = ou[2]
-                got = [t for t in ou[3].strip('[] ').split(' ') if t]
-                vec_after = ou[4]
+                sh = 1 if (len(exp) > 3 and exp[-1] == 'tagged') else 0      # one more step (push, then `var v`)
+                res = ou[2 + sh]
+                got = [t for t in ou[3 + sh].strip('[] ').split(' ') if t]
+                vec_after = ou[4 + sh]
+                if sh:
+                    vec_after = cells.fmt(cells.strip(cells.parse(vec_after))) if vec_after.startswith(('V', 'G')) else vec_after
                 bad = None
                 if exp[0] != 'strslice':
                     vec = exp[1]
